@@ -523,5 +523,12 @@ func main() {
 	}
 	R.Expect("sign/public key y odd=0, nonce point y odd=0", "sign/public key y odd=0, nonce point y odd=1", "sign/public key y odd=1, nonce point y odd=0", "sign/public key y odd=1, nonce point y odd=1",
 		"derive/private key with public y odd=0", "derive/private key with public y odd=1", "derive/point with y odd=0", "derive/point with y odd=1")
+	// cold start: signing and derivation as the first library operations of a fresh process
+	for _, d := range []*big.Int{big.NewInt(3), big.NewInt(6), new(big.Int).Sub(ref.N, big.NewInt(2))} {
+		for route := 0; route < 2; route++ {
+			R.Cold("sign", "sign", mc.D{"d": mc.HexBig(d), "aux": mc.Hex(bytes.Repeat([]byte{7}, 32)), "msg": mc.Hex([]byte("cold start")), "route": route, "mode": "full"})
+		}
+		R.Cold("derive", "derive", mc.D{"d": mc.HexBig(d)})
+	}
 	R.Finish()
 }
